@@ -320,6 +320,50 @@ def rule_if_args(cx, rep, port='py'):
                 rep.decide(d == 'input_delim' and pol == 'input_policy', '{}.{} join dialect'.format(mod, fn), c, 'join tables are read with the input dialect', 'join tables are read with `{}`/`{}` instead of the input dialect'.format(d, pol))
 
 
+def _bound_args(call, fd, skip_self=True):
+    """parameter name -> argument expression of a call, following the callee's signature (positional, keyword, defaults)"""
+    params = [a.arg for a in fd.args.args]
+    if skip_self and params and params[0] == 'self':
+        params = params[1:]
+    out = {}
+    for p_, a_ in zip(params, call.args):
+        out[p_] = a_
+    for k in call.keywords:
+        if k.arg:
+            out[k.arg] = k.value
+    for p_, d_ in zip(params[len(params) - len(fd.args.defaults):], fd.args.defaults):
+        out.setdefault(p_, d_)
+    return out
+
+
+def rule_if_joinopts(cx, rep, port='py'):
+    """join tables are read with the same reading options as the input table: for every option that both the input iterator and the
+    file-system registry accept (delimiter, policy, encoding, header flag, comment prefix), query_csv hands both the same value"""
+    p = cx.py
+    fd = p.func('rbql_csv', 'query_csv')
+    it_init = p.func('rbql_csv', 'CSVRecordIterator.__init__')
+    rg_init = p.func('rbql_csv', 'FileSystemCSVRegistry.__init__')
+    it_calls = [c for c in walk_no_nested(fd) if isinstance(c, ast.Call) and (call_name(c) or '').split('.')[-1] == 'CSVRecordIterator']
+    rg_calls = [c for c in walk_no_nested(fd) if isinstance(c, ast.Call) and (call_name(c) or '').split('.')[-1] == 'FileSystemCSVRegistry']
+    if len(it_calls) != 1 or len(rg_calls) != 1:
+        rep.undecided('join reading options', fd, 'constructor calls of the input iterator / join registry not found in query_csv')
+        return
+    a_it, a_rg = _bound_args(it_calls[0], it_init), _bound_args(rg_calls[0], rg_init)
+    common = [k for k in a_it if k in a_rg and k not in ('stream', 'input_file_dir', 'table_name', 'variable_prefix', 'chunk_size', 'line_mode')]
+    rep.require_count('options shared by reader and registry', len(common), 4, fd)
+    bad = [k for k in common if ast.dump(a_it[k]) != ast.dump(a_rg[k])]
+    rep.decide(not bad, 'join reading options', rg_calls[0], 'the registry gets the same {} as the input iterator'.format(', '.join(common)), 'the join registry is built with {} = `{}` while the input iterator gets `{}`: join tables are read by different rules than the input table'.format(bad[0] if bad else '', node_text(a_rg[bad[0]], 40) if bad else '', node_text(a_it[bad[0]], 40) if bad else ''))
+    # and the registry passes them on to the iterator it creates
+    gi = p.func('rbql_csv', 'FileSystemCSVRegistry.get_iterator_by_table_id')
+    inner = [c for c in walk_no_nested(gi) if isinstance(c, ast.Call) and (call_name(c) or '').split('.')[-1] == 'CSVRecordIterator']
+    if len(inner) == 1:
+        a_in = _bound_args(inner[0], it_init)
+        miss = [k for k in common if not (dotted(a_in.get(k)) == 'self.' + k)]
+        rep.decide(not miss, 'registry forwards options', inner[0], 'the registry reads join tables with its own {}'.format(', '.join(common)), 'the registry does not pass its `{}` on to the iterator it creates'.format(miss[0] if miss else ''))
+    else:
+        rep.undecided('registry forwards options', gi, 'iterator construction in the registry not found')
+
+
 def rule_if_df(cx, rep, port='py'):
     """the dataframe writer hands the header to the result unconditionally"""
     p = cx.py
